@@ -1,8 +1,10 @@
 """Shared plumbing: build the instrumented binary, scratch stores, RPC client, Coq term emission."""
 import base64, json, os, random, shutil, subprocess, sys, tempfile, time, re
 
-REPO = '/repo'
-VERIF = '/verif'
+# the registered checks run from /verif against /repo; the two variables exist so that mutation runs can use
+# private copies of both (bin/mutate-iso) without touching the real trees
+REPO = os.environ.get('VERIF_REPO', '/repo')
+VERIF = os.environ.get('VERIF_HOME', '/verif')
 BUILD = os.path.join(VERIF, 'build')
 ERGO = os.path.join(BUILD, 'ergo')
 COQ = os.path.join(VERIF, 'coq')
